@@ -61,7 +61,7 @@ func init() {
 		Promises: func(core.Tier) map[string][]string {
 			return map[string][]string{"route": {"Snapshot+RestoreSnapshot", "Snapshot+RestoreFromReader", "SnapshotInTx+RestoreSnapshot", "SnapshotInTx+RestoreFromReader", "StreamToWriter+RestoreSnapshot", "StreamToWriter+RestoreFromReader"},
 				"porcupine": {"ok"}, "snapshot_path": {"path already holds an earlier snapshot"},
-				"restore_reader":         {"*os.File", "the same file a second time", "bytes.Reader", "data+EOF together", "half reads", "4096-byte chunks, EOF with the last", "single read with EOF"},
+				"restore_reader":         {"*os.File", "the same file a second time", "bytes.Reader", "data+EOF together", "half reads", "4096-byte chunks, EOF with the last", "single read with EOF", "bytes.Reader positioned behind a header", "*os.File positioned behind a header"},
 				"timeline_after_restore": {"round 0, start initialised", "round 0, start never requested", "round 0, start default on empty", "round 1, start never requested", "failing id function first", "two concurrent requests"}}
 		},
 		MinCounters: func(core.Tier) map[string]int64 {
@@ -227,7 +227,8 @@ func c17Sequential(c *core.Ctx, idx int) {
 		} else {
 			// readers differ in how they report the end: on a separate empty read, together with the last bytes, in
 			// small pieces
-			kinds := []string{"bytes.Reader", "data+EOF together", "one byte at a time", "half reads", "4096-byte chunks, EOF with the last", "single read with EOF", "*os.File"}
+			kinds := []string{"bytes.Reader", "data+EOF together", "one byte at a time", "half reads", "4096-byte chunks, EOF with the last", "single read with EOF", "*os.File",
+				"bytes.Reader positioned behind a header", "*os.File positioned behind a header"}
 			readerKind = kinds[(idx*7+round*5+idx/6)%len(kinds)]
 			if len(snapBytes) > 1<<20 && readerKind == "one byte at a time" {
 				readerKind = "half reads"
@@ -245,6 +246,23 @@ func c17Sequential(c *core.Ctx, idx int) {
 				rd = &eofChunkReader{data: snapBytes, chunk: 4096}
 			case "single read with EOF":
 				rd = &eofChunkReader{data: snapBytes, chunk: len(snapBytes) + 1}
+			case "bytes.Reader positioned behind a header":
+				// the snapshot travels inside a container (a header in front of it); the caller has read the header and hands
+				// the reader over where the snapshot begins
+				br := bytes.NewReader(append([]byte("SNAPSHOT-CONTAINER v1\n0123456789abcdef"), snapBytes...))
+				_, _ = br.Seek(int64(len("SNAPSHOT-CONTAINER v1\n0123456789abcdef")), io.SeekStart)
+				rd = br
+			case "*os.File positioned behind a header":
+				hdr := []byte("SNAPSHOT-CONTAINER v1\n0123456789abcdef")
+				srcPath := e.Path + fmt.Sprintf(".container-%d", round)
+				if err := os.WriteFile(srcPath, append(append([]byte{}, hdr...), snapBytes...), 0600); err == nil {
+					if f, err := os.Open(srcPath); err == nil {
+						defer f.Close()
+						_, _ = io.ReadFull(f, make([]byte, len(hdr)))
+						rd = f
+					}
+				}
+				defer os.Remove(srcPath)
 			case "*os.File":
 				// the caller's own snapshot file, which it keeps: restoring from it a second time later must give the same state
 				srcPath := e.Path + fmt.Sprintf(".restore-src-%d", round)
